@@ -116,6 +116,12 @@ def run_gate(ctx, report, spec, name):
                         total = s.meta.get('validator_calls', 0)
                         if v.variant != 'Ok':
                             vios.append({'key': 'gate.rejects-valid', 'what': '[%s] parse rejects a valid description' % name})
+                    # every declared local group - empty ones too - is submitted to the validator (it is the only place
+                    # where the group's value type is checked against the enabled features)
+                    ngroups = sum(len(f.get('locals', [])) for f in spec.funcs)
+                    ndef = sum(1 for e in evs if e[0] == 'validator' and e[1] == 'define_locals')
+                    if ndef != ngroups:
+                        vios.append({'key': 'gate.define_locals', 'what': '[%s] %d local groups declared, validator.define_locals called %d times' % (name, ngroups, ndef)})
                     # ordering on the accepting run
                     seen_ok = set()
                     last_op = None
@@ -267,6 +273,10 @@ def run(tier, seed, only=None):
         run_features(ctx, report)
         run_gate(ctx, report, scen.full_module(0), 'full-module/variant0')
         run_unsupported(ctx, report)
+        from obligations import c11
+        zsp = c11.spec_for(2)
+        zsp.funcs[0]['locals'] = [(0, 'i64'), (1, 'i32'), (0, 'f32')]          # zero-count groups are legal
+        run_gate(ctx, report, zsp, 'zero-count-local-groups')
         run_complete(ctx, report, gl)
         for n, sp in gl[:2 if tier == 'quick' else 12]:
             run_gate(ctx, report, sp, n)
